@@ -861,7 +861,10 @@ func runHistory(h *History) {
 			sk, vk := kindsOf(plan.Mutations, true), kindsOf(plan.Mutations, false)
 			switch {
 			case changed && sk == "":
-				run.Inconclusive(fmt.Sprintf("history %d run %d: value-only mutations (%s) changed the structure fingerprint: %s", h.N, k, vk, firstDiff(m.structure, structure)))
+				// the application changed nothing but values, and yet what the accessory serves as its database differs in
+				// something that is not a value: the structure follows the values, and so does the configuration number
+				run.Violation("c#:database-structure-follows-values", fmt.Sprintf("run %d differs from the previous run only in values (%s), but the attribute database served differs outside the value members: %s (c# %d -> %s)", k, vk, firstDiff(m.structure, structure), m.cnum, sum.CNum),
+					map[string]interface{}{"history": h.N, "run": k, "mutations": plan.Mutations, "difference": firstDiff(m.structure, structure)})
 				return
 			case changed:
 				run.Count("transitions_structure_changed", 1)
